@@ -121,3 +121,29 @@ Theorem C01_masked_cached_optimizer_refines_blockwise :
             /\ observable s = spec_run (opt_bstep Op c) lay (0%Z, vals, sts) h.
 Proof. exact @masked_optimizer_refines_blockwise. Qed.
 Print Assumptions C01_masked_cached_optimizer_refines_blockwise.
+
+(* ... and that block-wise run IS the iteration of [group_step] (ComposeMasks.v): the structural model of step() with
+   masks and caches, over any history of presence patterns, computes on its blocks exactly what iterating the group step
+   of this file's model computes (hs pairs every step's gradients with the group's float32 scalars of that step) *)
+From Shampoo Require ComposeMasks.
+Theorem C01_blockwise_spec_is_group_step_iteration :
+  forall F (Op : ops F) (c : cfg (F:=F)) lay (hs : list (hints (F:=F) * pgrads (ograd (F:=F)))) t vals sts n,
+    length vals = n -> length sts = n ->
+    Forall (fun p => length (local_grads lay (snd p)) = n
+                     /\ ComposeMasks.uniform_l (fst p) (local_grads lay (snd p))) hs ->
+    ComposeMasks.model_run_l Op c (map (fun p => (fst p, local_grads lay (snd p))) hs) t (ComposeMasks.mk_blocks vals sts)
+    = (let '(t', vals', sts') := spec_run (opt_bstep Op c) lay (t, vals, sts) (map snd hs) in (t', ComposeMasks.mk_blocks vals' sts')).
+Proof. exact @ComposeMasks.spec_run_is_group_step_iteration. Qed.
+Print Assumptions C01_blockwise_spec_is_group_step_iteration.
+
+Theorem C01_masked_cached_optimizer_is_group_step_iteration :
+  forall F (Op : ops F) (c : cfg (F:=F)) (lay : layout) (vals : list (ovalue (F:=F))) (sts : list (ostate (F:=F)))
+         (hs : list (hints (F:=F) * pgrads (ograd (F:=F)))),
+    wf_layout lay -> length vals = n_local lay -> length sts = n_local lay ->
+    wf_history ograd lay (map snd hs) ->
+    Forall (fun p => ComposeMasks.uniform_l (fst p) (local_grads lay (snd p))) hs ->
+    exists s, group_run (opt_bstep Op c) lay (init_state lay vals sts) (map snd hs) = Ok s
+              /\ (let '(t', vals', sts') := observable s in (t', ComposeMasks.mk_blocks vals' sts'))
+                 = ComposeMasks.model_run_l Op c (map (fun p => (fst p, local_grads lay (snd p))) hs) 0%Z (ComposeMasks.mk_blocks vals sts).
+Proof. exact @ComposeMasks.masked_cached_optimizer_is_group_step_iteration. Qed.
+Print Assumptions C01_masked_cached_optimizer_is_group_step_iteration.
